@@ -197,6 +197,32 @@ func (d *Driver) agreeAlt(op string, want model.ErrKind, err error, alts ...mode
 	return d.agree(op, want, err)
 }
 
+// copyAlts lists every error kind that applies to a copy request, evaluated
+// on the model state the request met: a copy can be wrong in several
+// independent ways at once (unsatisfiable source range, missing destination
+// bucket, missing upload) and which of them is reported first is not part of
+// any property. Only used when the model rejects the request.
+func (d *Driver) copyAlts(sb, sk string, srcVersion *string, db, dstKey, uploadID string, rs, re *int64) []model.ErrKind {
+	var alts []model.ErrKind
+	if rs != nil && re != nil && *rs >= *re {
+		alts = append(alts, model.InvalidRange) // an empty range is unsatisfiable whatever else is wrong
+	}
+	if (rs != nil || re != nil) && d.M.Buckets[sb] != nil {
+		if src := d.M.Buckets[sb].Resolve(sk, srcVersion); src != nil {
+			if _, _, k := model.NormalizeRange(rs, re, src.Size()); k != model.OK {
+				alts = append(alts, k)
+			}
+		}
+	}
+	dst := d.M.Buckets[db]
+	if dst == nil {
+		alts = append(alts, model.NoSuchBucket)
+	} else if uploadID != "" && dst.Upload(dstKey, uploadID) == nil {
+		alts = append(alts, model.NoSuchUpload)
+	}
+	return alts
+}
+
 // agree compares the outcome class of an operation.
 func (d *Driver) agree(op string, want model.ErrKind, err error) *Violation {
 	got := classify(err)
@@ -864,10 +890,7 @@ func (d *Driver) opCopy(g *sim.Tape) *Violation {
 	res, err := d.St.CopyObject(d.ctx, bn(sb), ok(sk), bn(db), ok(dk), opts)
 	d.noteOp(op, err)
 	mv, _, want := d.M.CopyObject(sb, sk, db, dk, a)
-	var alts []model.ErrKind
-	if a.RangeStart != nil && a.RangeEnd != nil && *a.RangeStart >= *a.RangeEnd {
-		alts = append(alts, model.InvalidRange) // an empty range is unsatisfiable whatever else is wrong
-	}
+	alts := d.copyAlts(sb, sk, a.SrcVersion, db, "", "", a.RangeStart, a.RangeEnd)
 	if v := d.agreeAlt(op, want, err, alts...); v != nil {
 		return v
 	}
@@ -1245,10 +1268,7 @@ func (d *Driver) opMultipart(g *sim.Tape) *Violation {
 		_, err := d.St.UploadPartCopy(d.ctx, bn(sb), ok(sk), bn(b), ok(u.Key), rid, int32(n), opts)
 		d.noteOp(op, err)
 		_, want := d.M.UploadPartCopy(sb, sk, b, u.Key, mid, n, nil, rs, re)
-		var alts []model.ErrKind
-		if rs != nil && re != nil && *rs >= *re {
-			alts = append(alts, model.InvalidRange)
-		}
+		alts := d.copyAlts(sb, sk, nil, b, u.Key, mid, rs, re)
 		if v := d.agreeAlt(op, want, err, alts...); v != nil {
 			return v
 		}
